@@ -389,6 +389,7 @@ Definition bracket_fmt (b : bracket) : eres str :=
     EOk ([c_lbr] ++ (if b_complement b then [c_caret] else []) ++ s ++ [c_rbr]))
   else if negb (b_complement b) then
     ebind (fmt_alts (b_items b) true) (fun s => EOk ([c_lpar; c_quest; c_colon] ++ s ++ [c_rpar]))
+  else if forallb bitem_multi (b_items b) then EOk [c_dot]     (* no single character is excluded *)
   else
     ebind (fmt_all bitem_fmt (filter (fun it => negb (bitem_multi it)) (b_items b))) (fun s =>
     EOk ([c_lbr; c_caret] ++ s ++ [c_rbr])).
@@ -410,7 +411,11 @@ Definition ast_fmt (cfg : config) (a : ast) : eres str :=
 (* ------------------------------------------------------------------ *)
 (* 4. the regex crate on the emitted syntax                            *)
 
-Inductive citem := CLit (c : N) | CRange (lo hi : N) | CAscii (k : ascii_kind).
+Inductive citem :=
+| CLit (c : N)
+| CRange (lo hi : N)
+| CAscii (k : ascii_kind)
+| CNest (neg : bool) (items : list citem).     (* a nested class, [:^name:] *)
 
 (* nodes that consume exactly one character *)
 Inductive snode := SLit (c : N) | SAny | SClass (neg : bool) (items : list citem).
@@ -459,15 +464,17 @@ Fixpoint take_until_colon (s : str) : option (str * str) :=
               else omap (fun p => (c :: fst p, snd p)) (take_until_colon r)
   end.
 
-Definition parse_ascii_class (s : str) : option (ascii_kind * str) :=
+Definition parse_ascii_class (s : str) : option (bool * ascii_kind * str) :=
   match s with
   | c :: r =>
       if N.eqb c c_colon then
-        match take_until_colon r with
+        let neg := match r with d :: _ => N.eqb d c_caret | [] => false end in
+        let r1 := if neg then tl r else r in
+        match take_until_colon r1 with
         | Some (name, c1 :: c2 :: rest) =>
             if N.eqb c1 c_colon && N.eqb c2 c_rbr then
               match class_of_name name with
-              | Some k => Some (k, rest)
+              | Some k => Some (neg, k, rest)
               | None => None
               end
             else None
@@ -493,6 +500,39 @@ Definition class_prim (s : str) : rxres (N * str) :=
       else RxOk (c, r)
   end.
 
+(* parse_set_class_open: ^, then any number of literal -, then a literal ]
+   if nothing has been pushed yet; [s] is what follows the opening bracket.
+   Result: negated?, the members pushed so far (reversed), the rest. *)
+Fixpoint leading_hyphens (s : str) : list citem * str :=
+  match s with
+  | c :: r => if N.eqb c c_hyphen then let (l, t) := leading_hyphens r in (CLit c_hyphen :: l, t)
+              else ([], s)
+  | [] => ([], [])
+  end.
+
+Definition class_open (s : str) : rxres (bool * list citem * str) :=
+  match s with
+  | [] => RxErr
+  | c :: r =>
+      let neg := N.eqb c c_caret in
+      let s1 := if neg then r else s in
+      match s1 with
+      | [] => RxErr
+      | _ :: _ =>
+          let (hy, s2) := leading_hyphens s1 in
+          match s2 with
+          | [] => RxErr
+          | d :: s3 =>
+              if is_nil hy && N.eqb d c_rbr then
+                match s3 with
+                | [] => RxErr
+                | _ :: _ => RxOk (neg, [CLit c_rbr], s3)
+                end
+              else RxOk (neg, rev hy, s2)
+          end
+      end
+  end.
+
 (* the loop of parse_set_class after parse_set_class_open *)
 Fixpoint class_loop (fuel : nat) (neg : bool) (acc : list citem) (s : str) : rxres (snode * str) :=
   match fuel with
@@ -503,8 +543,21 @@ Fixpoint class_loop (fuel : nat) (neg : bool) (acc : list citem) (s : str) : rxr
       | c :: r =>
           if N.eqb c c_lbr then
             match parse_ascii_class r with
-            | Some (k, rest) => class_loop f neg (CAscii k :: acc) rest
-            | None => RxUnsup                         (* nested class / negated ASCII class *)
+            | Some (nk, rest) =>
+                class_loop f neg ((if fst nk then CNest true [CAscii (snd nk)] else CAscii (snd nk)) :: acc) rest
+            | None =>
+                (* a nested class: its members up to its own closing bracket *)
+                match class_open r with
+                | RxOk (neg', acc', r') =>
+                    match class_loop f neg' acc' r' with
+                    | RxOk (SClass n items, r'') => class_loop f neg (CNest n items :: acc) r''
+                    | RxOk (_, _) => RxUnsup
+                    | RxErr => RxErr
+                    | RxUnsup => RxUnsup
+                    end
+                | RxErr => RxErr
+                | RxUnsup => RxUnsup
+                end
             end
           else if N.eqb c c_rbr then RxOk (SClass neg (rev acc), r)
           else if (N.eqb c c_amp || N.eqb c c_hyphen || N.eqb c c_tilde) &&
@@ -537,37 +590,12 @@ Fixpoint class_loop (fuel : nat) (neg : bool) (acc : list citem) (s : str) : rxr
       end
   end.
 
-(* parse_set_class_open: ^, then any number of literal -, then a literal ]
-   if nothing has been pushed yet *)
-Fixpoint leading_hyphens (s : str) : list citem * str :=
-  match s with
-  | c :: r => if N.eqb c c_hyphen then let (l, t) := leading_hyphens r in (CLit c_hyphen :: l, t)
-              else ([], s)
-  | [] => ([], [])
-  end.
-
-(* [s] is what follows the opening bracket *)
+(* a whole class; [s] is what follows the opening bracket *)
 Definition parse_class (s : str) : rxres (snode * str) :=
-  match s with
-  | [] => RxErr
-  | c :: r =>
-      let neg := N.eqb c c_caret in
-      let s1 := if neg then r else s in
-      match s1 with
-      | [] => RxErr
-      | _ :: _ =>
-          let (hy, s2) := leading_hyphens s1 in
-          match s2 with
-          | [] => RxErr
-          | d :: s3 =>
-              if is_nil hy && N.eqb d c_rbr then
-                match s3 with
-                | [] => RxErr
-                | _ :: _ => class_loop (S (length s3)) neg [CLit c_rbr] s3
-                end
-              else class_loop (S (length s2)) neg (rev hy) s2
-          end
-      end
+  match class_open s with
+  | RxOk (neg, acc, s') => class_loop (S (length s')) neg acc s'
+  | RxErr => RxErr
+  | RxUnsup => RxUnsup
   end.
 
 (* the inside of (?: ... ): alternatives of one-character nodes *)
@@ -669,11 +697,17 @@ Definition ascii_ranges (k : ascii_kind) : list (N * N) :=
 
 Definition in_range (x : N) (p : N * N) : bool := N.leb (fst p) x && N.leb x (snd p).
 
-Definition citem_match (x : N) (it : citem) : bool :=
+Fixpoint citem_match (x : N) (it : citem) : bool :=
   match it with
   | CLit c => N.eqb x c
   | CRange lo hi => N.leb lo x && N.leb x hi
   | CAscii k => existsb (in_range x) (ascii_ranges k)
+  | CNest neg items =>
+      xorb neg ((fix any (l : list citem) : bool :=
+                   match l with
+                   | [] => false
+                   | i :: l' => citem_match x i || any l'
+                   end) items)
   end.
 
 Definition smatch (n : snode) (x : N) : bool :=
